@@ -62,6 +62,7 @@ STRINGS = [
     "nul\x00char",
     "{\"json\": [1, 2]}",
     "x" * 257,
+    "long text " * 150,  # 1500 characters
     "None",
     "null",
     "0",
@@ -229,21 +230,50 @@ def set_declared_fields(fields: dict) -> None:
             if name in known:
                 continue
             kind = _SIMPLE.get(info["annotation"])
-            if kind is None:
+            bounds = info.get("constraints") or {}
+            if kind is None or "pattern" in bounds or "multiple_of" in bounds:
                 UNEXERCISED_FIELDS.append(f"{cls}.{name}: {info['annotation']}")
             else:
-                EXTRA_FIELDS.setdefault(cls, {})[name] = kind
+                EXTRA_FIELDS.setdefault(cls, {})[name] = (
+                    kind, bounds, bool(info.get("required")),
+                )
 
 
 def fill_extra(entity: dict, cls: str, rv, cfg) -> dict:
+    """Values for declared fields the builders do not know (a field added to a
+    data class): within the field's declared bounds, and an optional field is
+    also left unset."""
     extra = {}
-    for name, kind in EXTRA_FIELDS.get(cls, {}).items():
+    for name, (kind, bounds, required) in EXTRA_FIELDS.get(cls, {}).items():
+        if not required and rv.random() < 0.4:
+            continue
         if kind == "str":
-            extra[name] = gen_str(rv, cfg) or "x"
+            value = gen_str(rv, cfg) or "x"
+            if "max_length" in bounds:
+                value = value[: int(bounds["max_length"])]
+            if len(value) < int(bounds.get("min_length", 0)):
+                value = value + "x" * (int(bounds["min_length"]) - len(value))
+            extra[name] = value
         elif kind == "float":
-            extra[name] = gen_float(rv, cfg)
+            if bounds:
+                lo = bounds.get("ge", bounds.get("gt", -1000.0))
+                hi = bounds.get("le", bounds.get("lt", 1000.0))
+                if "gt" in bounds:
+                    lo = math.nextafter(float(lo), math.inf)
+                if "lt" in bounds:
+                    hi = math.nextafter(float(hi), -math.inf)
+                hi = max(float(hi), float(lo))
+                extra[name] = rv.choice(
+                    [float(lo), float(hi), rv.uniform(float(lo), float(hi))]
+                )
+            else:
+                extra[name] = gen_float(rv, cfg)
         elif kind == "int":
-            extra[name] = rv.randint(-1000, 1000)
+            lo = bounds.get("ge", bounds["gt"] + 1 if "gt" in bounds else -1000)
+            hi = bounds.get("le", bounds["lt"] - 1 if "lt" in bounds else 1000)
+            lo = int(math.ceil(lo))
+            hi = max(int(math.floor(hi)), lo)
+            extra[name] = rv.choice([lo, hi, rv.randint(lo, hi)])
         elif kind == "bool":
             extra[name] = rv.random() < 0.5
         elif kind == "liststr":
@@ -312,6 +342,12 @@ def draw_cfg(rng: random.Random, focus: str = "C01", tier: str = "quick") -> dic
         cfg["n_per_clip"] = rng.choice([0, 1])
         cfg["p_opt"] = rng.choice([0.15, 0.5])
         cfg["bulk"] = True
+        cfg["plain_recordings"] = True
+        if rng.random() < 0.15:
+            # documents beyond a megabyte (block-wise readers and writers)
+            cfg["n_recordings"] = 5000
+            cfg["n_clips"] = 4
+            cfg["dense_unicode"] = True
     cfg["audio_root"] = rng.choice(AUDIO_ROOTS)
     cfg["tz_aware"] = rng.random() < 0.15
     cfg["p_dup_ref"] = rng.choice([0, 0, 0, 0.1, 0.3])
@@ -547,7 +583,9 @@ def gen_rel_path(rs) -> str:
     stem = rs.choice(["rec", "ünï rec", "a b", "x.y", "日本", "0001",
                       "pa\u0301jaro", "Ω", "rec", "a b", "back\\slash",
                       "50%", "c#4", "~x", "t:1"])
-    parts.append(f"{stem}_{rs.randint(0, 999)}.wav")
+    suffix = rs.choice([".wav", ".wav", ".wav", ".wav", ".WAV", ".Wav",
+                        ".flac", ".wav.bak", ".tar.gz", "", ".mp3"])
+    parts.append(f"{stem}_{rs.randint(0, 999)}{suffix}")
     return "/".join(parts)
 
 
@@ -623,15 +661,27 @@ def gen_world(struct_seed, value_seed, cfg) -> dict:
             "uuid": _uuid(rs),
             "path": path,
             "duration": gen_float(rv, cfg, 0.0, None),
-            "channels": rv.choice([1, 2, 4, 0, 2**31, 2**62]),
-            "samplerate": rv.choice(
-                [8000, 44100, 384000, 1, 7919, 2**31 + 1, 2**63 - 1, 0]
-            ),
+            "channels": rv.choice([1, 2, 4]),
+            "samplerate": rv.choice([8000, 44100, 384000, 1, 7919]),
         }
+        if rv.random() < cfg["p_edge"] / 2:
+            # values at the edge of what the fields' types admit (no schema
+            # rule forbids them today)
+            r["channels"] = rv.choice([0, 2**31, 2**62])
+        if rv.random() < cfg["p_edge"] / 2:
+            r["samplerate"] = rv.choice([2**31 + 1, 2**63 - 1, 0])
         if _maybe(rv, cfg):
             r["time_expansion"] = rv.choice(
                 [1.0, 0.5, 10.0, 2.5, 0.1, gen_float(rv, cfg, 0.0, None)]
             )
+        if cfg.get("plain_recordings"):
+            # worlds of a property that does not speak about recordings carry
+            # unremarkable ones (a stricter Recording schema is not its business)
+            r["duration"] = float(rv.choice([1, 10, 60, 600]))
+            r["channels"] = rv.choice([1, 2, 4])
+            r["samplerate"] = rv.choice([8000, 44100, 384000, 22050])
+            if "time_expansion" in r:
+                r["time_expansion"] = rv.choice([1.0, 0.5, 10.0, 2.5])
         if _maybe(rv, cfg):
             r["hash"] = (
                 "" if rv.random() < cfg["p_edge"] / 4
@@ -656,6 +706,12 @@ def gen_world(struct_seed, value_seed, cfg) -> dict:
             r["license"] = gen_str(rv, cfg)
         if _maybe(rv, cfg):
             r["rights"] = gen_str(rv, cfg)
+        if cfg.get("dense_unicode"):
+            # mostly multi-byte text, so that any byte offset of a large
+            # document is likely to fall inside a character
+            r["rights"] = rv.choice(
+                ["鳥の録音データ第", "コウモリの超音波記録", "ünïcödé rëcördïng "]
+            ) * rv.randint(3, 8)
         r["owners"] = _pick_some(rs, nu, 2)
         r["tags"] = _pick_tags(rs, nt, 3)
         r["features"] = gen_features(rv, cfg)
@@ -719,7 +775,8 @@ def gen_world(struct_seed, value_seed, cfg) -> dict:
         return out
 
     def predicted_tags():
-        return [[i, gen_score(rv, cfg)] for i in _pick_some(rs, nt, 3)]
+        # the same tag may be predicted twice, with different probabilities
+        return [[i, gen_score(rv, cfg)] for i in _pick_tags(rs, nt, 3)]
 
     se_annotations, seq_annotations, clip_annotations = [], [], []
     se_predictions, seq_predictions, clip_predictions = [], [], []
@@ -900,7 +957,7 @@ def gen_world(struct_seed, value_seed, cfg) -> dict:
             if clip_annotations[i]["clip"] in task_clips
         ],
         "name": gen_str(rv, cfg),
-        "annotation_tags": _pick_some(rs, nt, 3),
+        "annotation_tags": _pick_tags(rs, nt, 3),
         "tasks": list(range(len(tasks))),
     }
     opt("description", ap)
@@ -912,7 +969,7 @@ def gen_world(struct_seed, value_seed, cfg) -> dict:
             rs, len(clip_annotations), keep=0.85
         ),
         "name": gen_str(rv, cfg),
-        "evaluation_tags": _pick_some(rs, nt, 3),
+        "evaluation_tags": _pick_tags(rs, nt, 3),
     }
     opt("description", es)
     roots["evaluation_set"] = es
